@@ -79,6 +79,7 @@ pub fn cmd_extra(args: &[String]) {
         "serde" => serde_slice(&mut rep, seed, scale),
         "fault" => fault(&mut rep, seed, scale),
         "eqs" => eqs(&mut rep, seed, scale),
+        "hb" => hb(&mut rep, seed, scale),
         _ => {
             eprintln!("unknown extra slice {which}");
             std::process::exit(2);
@@ -1743,4 +1744,188 @@ fn eqs(rep: &mut Report, seed: u64, scale: u64) {
     eq_cases(rep, "stateful, different state", VBuild { kind: HKind::Mul, seed: 3 }, VBuild { kind: HKind::Mul, seed: 77 }, &sizes, &mut g);
     eq_cases(rep, "identity, different state", VBuild { kind: HKind::Id, seed: 0 }, VBuild { kind: HKind::Id, seed: 5 }, &sizes, &mut g);
     eq_cases(rep, "griddle's default builder", griddle::hash_map::DefaultHashBuilder::default(), griddle::hash_map::DefaultHashBuilder::default(), &sizes, &mut g);
+}
+
+// ------------------------------------------------------------------------------------------------
+// hashbrown 0.14.5's raw table itself against the contract model of it (GriddleModel/Table.lean): the calls griddle
+// makes on it, in random sequences with boundary arguments, every call one transcript line (`hb…` ops; the model
+// state is a map without an old table).  Tombstone landings / EMPTY-vs-DELETED erasures are hashbrown's private
+// choices: the driver resolves them from the observed growth_left, the model checks them against its contract.
+fn hb(rep: &mut Report, seed: u64, scale: u64) {
+    use hashbrown::raw::RawTable;
+    use std::cell::Cell;
+    let rounds = 120 * scale;
+    for round in 0..rounds {
+        let mut g = Rng::new(seed.wrapping_mul(2_654_435_761).wrapping_add(round));
+        let kind = round % 3; // 0 multiplicative, 1 low entropy (long runs, tombstones), 2 identity
+        let hash = move |k: u64| -> u64 {
+            match kind {
+                0 => {
+                    let x = k.wrapping_mul(0x9E37_79B9_7F4A_7C15);
+                    x ^ (x >> 29)
+                }
+                1 => k % 8,
+                _ => k,
+            }
+        };
+        let hashed = Cell::new(0u64);
+        let mut tabs: Vec<Option<RawTable<(u64, u64)>>> = vec![None, None];
+        let mut keys: Vec<Vec<u64>> = vec![vec![], vec![]];
+        let mut next_key = 1u64;
+        let mut lines: Vec<String> = vec![];
+        let mut log: Vec<String> = vec![];
+        let obs = |t: &RawTable<(u64, u64)>, dh: u64, da: u64, df: u64| -> String {
+            format!(
+                "ret=- len={} cap={} mi={} mgl={} mb={} old=- dh={dh} da={da} df={df} panic=-",
+                t.len(),
+                t.capacity(),
+                t.len(),
+                t.capacity() - t.len(),
+                t.buckets()
+            )
+        };
+        let nops = 250;
+        // identity-hash rounds start from the state that makes hashbrown rehash IN PLACE: a full table of keys
+        // 0..cap (one solid run of full buckets), most of the run erased (tombstones, growth_left stays 0); the next
+        // new key lands on an EMPTY bucket behind the run with growth_left == 0 in a table at most half full
+        let mut prelude: Vec<(u8, u64)> = vec![];
+        if kind == 2 {
+            let cap = *g.pick(&[14u64, 28, 56, 112]);
+            prelude.push((0, cap));
+            for k in 0..cap {
+                prelude.push((1, k));
+            }
+            for k in 2..(cap * 3 / 4) {
+                prelude.push((2, k));
+            }
+            next_key = cap;
+        }
+        prelude.reverse();
+        let mut burst = 0usize;
+        let mut burst_on = 0usize;
+        let r = catch_unwind(AssertUnwindSafe(|| {
+            for _ in 0..nops {
+                let pre = prelude.pop();
+                let which = if pre.is_some() { 0 } else if burst > 0 { burst_on } else { g.below(2) as usize };
+                burst_on = which;
+                if tabs[which].is_none() {
+                    let cap = match pre { Some((0, c)) => c as usize, _ => *g.pick(&[0usize, 0, 1, 3, 4, 7, 8, 14, 15, 28, 29, 56, 57, 100, 112, 113, 448, 1000]) };
+                    alloc::arm();
+                    let t: RawTable<(u64, u64)> = RawTable::with_capacity(cap);
+                    let (da, df) = alloc::disarm();
+                    lines.push(format!("hbnew {which} {cap} |  | {}", obs(&t, 0, da, df)));
+                    log.push(format!("with_capacity({cap})"));
+                    tabs[which] = Some(t);
+                    keys[which].clear();
+                    continue;
+                }
+                let len = tabs[which].as_ref().unwrap().len();
+                let cap = tabs[which].as_ref().unwrap().capacity();
+                let mut code = g.below(100);
+                hashed.set(0);
+                if burst > 0 && !keys[which].is_empty() {
+                    burst -= 1;
+                    code = 60;
+                } else if cap == len && len >= 4 && g.chance(1, 2) {
+                    // a full table: empty most of it (tombstones inside long runs), so that the next growable insert
+                    // finds growth_left == 0 in a table at most half full and rehashes in place instead of resizing
+                    burst = len * 2 / 3;
+                    code = 60;
+                } else if burst > 0 {
+                    burst = 0;
+                }
+                if let Some((pk, _)) = pre {
+                    code = if pk == 1 { 0 } else { 60 };
+                }
+                if code < 45 {
+                    // insertion of a new key: growable, or no-grow when there is room
+                    let k = match pre { Some((1, k)) => k, _ => { next_key += 1; next_key - 1 } };
+                    let t = tabs[which].as_mut().unwrap();
+                    let nogrow = cap > len && g.chance(1, 2);
+                    alloc::arm();
+                    if nogrow {
+                        unsafe {
+                            t.insert_no_grow(hash(k), (k, 0));
+                        }
+                    } else {
+                        t.insert(hash(k), (k, 0), |x| {
+                            hashed.set(hashed.get() + 1);
+                            hash(x.0)
+                        });
+                    }
+                    let (da, df) = alloc::disarm();
+                    keys[which].push(k);
+                    lines.push(format!("{} {which} {k} |  | {}", if nogrow { "hbinsng" } else { "hbins" }, obs(t, hashed.get(), da, df)));
+                    log.push(format!("{}({k})", if nogrow { "insert_no_grow" } else { "insert" }));
+                } else if code < 75 && !keys[which].is_empty() {
+                    let i = match pre { Some((2, k)) => keys[which].iter().position(|x| *x == k).unwrap_or(0), _ => g.below(keys[which].len() as u64) as usize };
+                    let k = keys[which].swap_remove(i);
+                    let t = tabs[which].as_mut().unwrap();
+                    let b = t.find(hash(k), |x| x.0 == k).expect("key is in the table");
+                    unsafe {
+                        if g.chance(1, 2) {
+                            t.erase(b);
+                        } else {
+                            let _ = t.remove(b);
+                        }
+                    }
+                    lines.push(format!("hbrem {which} {k} |  | {}", obs(t, 0, 0, 0)));
+                    log.push(format!("remove({k})"));
+                } else if code < 80 {
+                    let t = tabs[which].as_mut().unwrap();
+                    t.clear();
+                    keys[which].clear();
+                    lines.push(format!("hbclear {which} |  | {}", obs(t, 0, 0, 0)));
+                    log.push("clear()".into());
+                } else if code < 90 {
+                    let n = match g.below(6) {
+                        0 => 0,
+                        1 => len,
+                        2 => len + 1,
+                        3 => cap,
+                        4 => len / 2,
+                        _ => g.below(2 * cap as u64 + 4) as usize,
+                    };
+                    let t = tabs[which].as_mut().unwrap();
+                    alloc::arm();
+                    t.shrink_to(n, |x| {
+                        hashed.set(hashed.get() + 1);
+                        hash(x.0)
+                    });
+                    let (da, df) = alloc::disarm();
+                    lines.push(format!("hbshrink {which} {n} |  | {}", obs(t, hashed.get(), da, df)));
+                    log.push(format!("shrink_to({n})"));
+                } else if code < 96 {
+                    let other = 1 - which;
+                    alloc::arm();
+                    let c = tabs[which].as_ref().unwrap().clone();
+                    let old = tabs[other].replace(c);
+                    let (da, _) = alloc::disarm();
+                    drop(old);
+                    keys[other] = keys[which].clone();
+                    lines.push(format!("hbclone {other} {which} |  | {}", obs(tabs[other].as_ref().unwrap(), 0, da, 0)));
+                    log.push(format!("table {other} = table {which}.clone()"));
+                } else {
+                    tabs[which] = None;
+                    keys[which].clear();
+                    lines.push(format!("forget {which} |  | "));
+                    log.push(format!("drop table {which}"));
+                }
+                rep.evaluations += 1;
+            }
+        }));
+        rep.tuples.insert(format!("hasher{kind}"));
+        if r.is_err() {
+            for p in ["C04", "C05", "C10"] {
+                rep.fail(p, format!("hashbrown's raw table panicked under the calls griddle makes on it: {}", LAST_PANIC.with(|p| p.borrow().lines().last().unwrap_or("").to_string())), log.join(" ; "));
+            }
+        }
+        if rep.transcript.len() < 400_000 {
+            rep.transcript.push(format!("H id=hb-{round} debug={} R=8 elem=16 limit={} hasher=-", cfg!(debug_assertions) as u8, alloc::LIMIT));
+            rep.transcript.append(&mut lines);
+        }
+        if rep.samples.is_empty() {
+            rep.samples.push(log.iter().take(30).cloned().collect::<Vec<_>>().join(" ; "));
+        }
+    }
 }
